@@ -22,12 +22,11 @@ for f in files:
     if m:
         cmds.append('cargo test -p %s --test %s --offline' % (m.group(2), m.group(3)))
 if not cmds:
-    # unit tests added inside the crate: find new fn names
-    names = re.findall(r'^\+\s*fn (\w+)\s*\(', demo, re.M)
-    crates = set(re.match(r'(contracts|packages)/([^/]+)/', f).group(2) for f in files)
-    for c in crates:
-        for n in names:
-            cmds.append('cargo test -p %s --offline %s' % (c, n))
+    # unit tests added inside the crate: filter by the new module's name
+    for f in files:
+        m = re.match(r'(contracts|packages)/([^/]+)/src/(?:.*/)?([^/]+)\.rs$', f)
+        if m and m.group(3) not in ('mod', 'lib'):
+            cmds.append('cargo test -p %s --offline %s' % (m.group(2), m.group(3)))
 out = {}
 assert sh('git apply %s/patch.diff' % d).returncode == 0, 'patch does not apply'
 out['suite_with_patch'] = suite()
